@@ -4,8 +4,8 @@ import "gosym/sym"
 
 func init() {
 	Register(&Spec{
-		ID:    "C09",
-		Level: "model_checking",
+		ID:          "C09",
+		Level:       "model_checking",
 		Explanation: "bounded symbolic execution with engine-level obligations on every path: (P) no panic reaches the harness from Load, Data.ICCProfile, ProfileReader.ReadProfile or Profile.Description; (A) at every make/append/new the allocated total stays <= 16*N + 128 KiB - for a symbolic size this is a satisfiability query whose model is the hostile file; (T) executed SSA instructions <= 4000*N + 200000. Inputs are N arbitrary symbolic bytes per loader and structured inputs in which every length/count/offset/size field is an unconstrained symbolic word",
 		Bounds: func(tier string) map[string]interface{} {
 			return map[string]interface{}{
@@ -22,7 +22,8 @@ func init() {
 			if tier == "thorough" {
 				pn, jn, wn, an = 32, 15, 52, 14
 			}
-			return []*Run{
+			runs := []*Run{
+				{H: sym.Harness{Pkg: "meta/pngmeta", Func: "VerifHarness_C09_NegControl"}, NegControl: true},
 				{H: sym.Harness{Pkg: "meta/pngmeta", Func: "VerifHarness_C09_PNG_Arbitrary", SetGlobals: g(pn), Workers: 14}, ExpectReach: []string{"returned"}, SamplePaths: 3},
 				{H: sym.Harness{Pkg: "meta/pngmeta", Func: "VerifHarness_C09_PNG_Chunks", Workers: 14}, ExpectReach: []string{"returned"}, SamplePaths: 3},
 				{H: sym.Harness{Pkg: "meta/jpegmeta", Func: "VerifHarness_C09_JPEG_Arbitrary", SetGlobals: g(jn), Workers: 14}, ExpectReach: []string{"returned"}, SamplePaths: 3},
@@ -32,8 +33,13 @@ func init() {
 				{H: sym.Harness{Pkg: "meta/autometa", Func: "VerifHarness_C09_Auto_Arbitrary", SetGlobals: g(an), Workers: 14}, ExpectReach: []string{"returned"}, SamplePaths: 3},
 				{H: sym.Harness{Pkg: "meta/icc", Func: "VerifHarness_C09_ICC_Arbitrary"}, ExpectReach: []string{"returned"}, SamplePaths: 3},
 				{H: sym.Harness{Pkg: "meta/icc", Func: "VerifHarness_C09_ICC_TagTable", Workers: 14}, ExpectReach: []string{"returned"}, SamplePaths: 3},
-				{H: sym.Harness{Pkg: "meta/icc", Func: "VerifHarness_C09_ICC_Desc", Workers: 14}, ExpectReach: []string{"returned"}, SamplePaths: 3},
 			}
+			// one run per shape of the description tag, each with its own path budget, so that
+			// a path explosion in one shape cannot hide a violation in another
+			for k := int64(0); k < 6; k++ {
+				runs = append(runs, &Run{H: sym.Harness{Pkg: "meta/icc", Func: "VerifHarness_C09_ICC_Desc", Workers: 6, MaxPaths: 6000, WallBudgetMs: 300000, SetGlobals: map[string]int64{"verifC09Case": k}}, ExpectReach: []string{"returned"}, SamplePaths: 1})
+			}
+			return runs
 		},
 	})
 }
